@@ -1,6 +1,16 @@
-//! Child module of the mounted `worker` module: constructs worker handles the way `ServerWorker::start` does
-//! (same `handle_pair`, `Counter::new`, `WorkerCounter::new`) without starting a thread.
+//! Child module of the mounted `worker` module.
+//! (1) constructs worker handles the way `ServerWorker::start` does (same `handle_pair`, `Counter::new`,
+//!     `WorkerCounter::new`) without starting a thread - used by the accept-loop driver;
+//! (2) runs the real `<ServerWorker as Future>::poll` natively with scripted services and factories.
+//!
+//! worker schedule line:  S=<services> timeout=<ms> | <op>*
+//!   ops: conn:<token>  finish:<k>  stop:<0|1>  tick:<ms>  poll:<a>,<a>,..   (a = answers consumed, in order, by
+//!        poll_ready (o = Ready(Ok), p = Pending, e = Ready(Err)) and by restart futures (c = created, w = Pending))
+//! trace: events separated by spaces; after every poll "P=<pending|ready>,total=<n>,q=<queued>,tx=<none|true|false>"
 use super::*;
+use actix_service::Service;
+use actix_utils::future::{ready, Ready};
+use std::{cell::RefCell, collections::VecDeque, rc::Rc};
 
 pub(crate) struct WorkerEnd {
     pub conn_rx: UnboundedReceiver<Conn>,
@@ -20,4 +30,107 @@ pub(crate) fn mk_handles(idx: usize, limit: usize, waker_queue: WakerQueue) -> (
 
 pub(crate) fn total(c: &Counter) -> usize { c.counter.load(Ordering::SeqCst) }
 
-pub(crate) fn run(_script: &str) -> String { String::from("unimplemented") }
+#[derive(Default)]
+struct Shared { answers: VecDeque<char>, log: Vec<String>, guards: Vec<(usize, WorkerCounterGuard)>, gens: Vec<usize> }
+type Sh = Rc<RefCell<Shared>>;
+
+struct ScriptSvc { id: usize, gen: usize, sh: Sh }
+impl Service<(WorkerCounterGuard, MioStream)> for ScriptSvc {
+    type Response = (); type Error = (); type Future = Ready<Result<(), ()>>;
+    fn poll_ready(&self, _: &mut Context<'_>) -> Poll<Result<(), ()>> {
+        let mut sh = self.sh.borrow_mut();
+        let a = sh.answers.pop_front().unwrap_or('o');
+        sh.log.push(format!("ready:{}:{}:{}", self.id, self.gen, a));
+        match a { 'p' => Poll::Pending, 'e' => Poll::Ready(Err(())), _ => Poll::Ready(Ok(())) }
+    }
+    fn call(&self, (guard, io): (WorkerCounterGuard, MioStream)) -> Self::Future {
+        let sid = match io { MioStream::Tcp(s) => s.0, MioStream::Uds(s) => s.0 };
+        let mut sh = self.sh.borrow_mut();
+        sh.log.push(format!("call:{}:{}:{}", self.id, self.gen, sid));
+        sh.guards.push((sid, guard));
+        ready(Ok(()))
+    }
+}
+struct ScriptFactory { id: usize, sh: Sh }
+unsafe impl Send for ScriptFactory {}
+impl InternalServiceFactory for ScriptFactory {
+    fn name(&self, _: usize) -> &str { "scripted" }
+    fn clone_factory(&self) -> Box<dyn InternalServiceFactory> { Box::new(ScriptFactory { id: self.id, sh: self.sh.clone() }) }
+    fn create(&self) -> LocalBoxFuture<'static, Result<(usize, BoxedServerService), ()>> {
+        let (id, sh) = (self.id, self.sh.clone());
+        let gen = { let mut s = sh.borrow_mut(); s.gens[id] += 1; let g = s.gens[id]; s.log.push(format!("create:{}:{}", id, g)); g };
+        Box::pin(std::future::poll_fn(move |_| {
+            let a = sh.borrow_mut().answers.pop_front().unwrap_or('c');
+            if a == 'w' { sh.borrow_mut().log.push(format!("restart-pending:{}", id)); return Poll::Pending; }
+            let svc: BoxedServerService = Box::new(ScriptSvc { id, gen, sh: sh.clone() });
+            Poll::Ready(Ok((id, svc)))
+        }))
+    }
+}
+
+fn noop_waker() -> std::task::Waker {
+    use std::task::{RawWaker, RawWakerVTable, Waker};
+    fn cl(_: *const ()) -> RawWaker { RawWaker::new(std::ptr::null(), &VT) }
+    fn no(_: *const ()) {}
+    static VT: RawWakerVTable = RawWakerVTable::new(cl, no, no, no);
+    unsafe { Waker::from_raw(RawWaker::new(std::ptr::null(), &VT)) }
+}
+
+pub(crate) fn run(line: &str) -> String {
+    let (head, sched) = line.split_once('|').expect("schedule needs `|`");
+    let mut ns = 1usize; let mut timeout = 30000u64;
+    for kv in head.split_whitespace() {
+        let (k, v) = kv.split_once('=').unwrap();
+        match k { "S" => ns = v.parse().unwrap(), "timeout" => timeout = v.parse().unwrap(), _ => {} }
+    }
+    actix_rt::time::set_now_ms(5000);
+    let sh: Sh = Rc::new(RefCell::new(Shared { gens: vec![0; ns], ..Default::default() }));
+    let poll = mio::Poll::new().unwrap();
+    let wq = WakerQueue::new(poll.registry()).unwrap();
+    let (conn_tx, conn_rx) = unbounded_channel::<Conn>();
+    let (stop_tx, stop_rx) = unbounded_channel::<Stop>();
+    let counter = Counter::new(1 << 20);
+    let services: Vec<(usize, usize, BoxedServerService)> = (0..ns).map(|i| (i, i, Box::new(ScriptSvc { id: i, gen: 0, sh: sh.clone() }) as BoxedServerService)).collect();
+    let factories: Vec<Box<dyn InternalServiceFactory>> = (0..ns).map(|i| Box::new(ScriptFactory { id: i, sh: sh.clone() }) as Box<dyn InternalServiceFactory>).collect();
+    let mut worker = ServerWorker {
+        conn_rx, stop_rx,
+        counter: WorkerCounter::new(0, wq.clone(), counter.clone()),
+        services: wrap_worker_services(services).into_boxed_slice(),
+        factories: factories.into_boxed_slice(),
+        state: WorkerState::default(),
+        shutdown_timeout: Duration::from_millis(timeout),
+    };
+    let waker = noop_waker(); let mut cx = Context::from_waker(&waker);
+    let mut next_sid = 100usize; let mut stop_rxs: Vec<oneshot::Receiver<bool>> = Vec::new();
+    let mut done = false;
+    let r = std::panic::catch_unwind(std::panic::AssertUnwindSafe(|| {
+        for op in sched.split_whitespace() {
+            if let Some(t) = op.strip_prefix("conn:") {
+                let _ = conn_tx.send(Conn { io: MioStream::Tcp(mio::net::TcpStream(next_sid)), token: t.parse().unwrap() });
+                counter.inc(); next_sid += 1;
+            } else if let Some(k) = op.strip_prefix("finish:") {
+                let (sid, g) = sh.borrow_mut().guards.remove(k.parse().unwrap()); drop(g);
+                sh.borrow_mut().log.push(format!("finished:{}", sid));
+            } else if let Some(g) = op.strip_prefix("stop:") {
+                let (tx, rx) = oneshot::channel(); let _ = stop_tx.send(Stop { graceful: g == "1", tx }); stop_rxs.push(rx);
+            } else if let Some(ms) = op.strip_prefix("tick:") {
+                actix_rt::time::set_now_ms(actix_rt::time::now_ms() + ms.parse::<u64>().unwrap());
+            } else if let Some(ans) = op.strip_prefix("poll:") {
+                if done { sh.borrow_mut().log.push("P=after-ready".into()); continue; }
+                sh.borrow_mut().answers = ans.split(',').filter(|s| !s.is_empty()).map(|s| s.chars().next().unwrap()).collect();
+                let r = Pin::new(&mut worker).poll(&mut cx);
+                if r.is_ready() { done = true; }
+                let mut txs = String::from("none");
+                for rx in stop_rxs.iter_mut() {
+                    if let Poll::Ready(v) = Pin::new(rx).poll(&mut cx) { txs = match v { Ok(b) => b.to_string(), Err(_) => "dropped".into() }; }
+                }
+                let left = sh.borrow().answers.len();
+                sh.borrow_mut().log.push(format!("P={},total={},q={},tx={},unused={}", if r.is_ready() { "ready" } else { "pending" }, worker.counter.total(), worker.conn_rx.len(), txs, left));
+            }
+        }
+    }));
+    let mut out = sh.borrow().log.join(" ");
+    if r.is_err() { out += " PANIC"; }
+    std::mem::forget(worker);
+    out
+}
